@@ -33,7 +33,8 @@ def plan(tier):
     return {"shards": 16, "timeout": 1200 if tier == "quick" else 5 * 3600,
             "required_monitors": ["membership", "row-alignment", "input-unchanged", "meta-carried", "exact-boundary",
                                   "loader-dataset"],
-            "required_tags": ["empty-region", "full-region", "group-without-positions", "group-ignored", "sphere", "box"]}
+            "required_tags": ["empty-region", "full-region", "group-without-positions", "group-ignored", "sphere", "box",
+                              "no-mesh-group"]}
 
 
 def cases(ctx):
@@ -53,15 +54,21 @@ def build_dataset(osy, rng, ndim=3, nmesh=None):
     """-> (dataset, info: group -> dict(pos (n, ndim) in cm or None, n))"""
     ds = osy.Dataset()
     info = {}
+    nmesh_given = nmesh
     nmesh = int(rng.integers(0, 400)) if nmesh is None else nmesh
     layout = []
-    for gname, n in (("mesh", nmesh), ("part", int(rng.integers(0, 200))), ("sink", int(rng.integers(0, 6))),
-                     ("extra", nmesh), ("other", nmesh + 3)):
+    no_mesh = nmesh_given is None and rng.random() < 0.12      # a dataset of particles/sinks only: nothing to fall back on
+    npart = int(rng.integers(0, 200))
+    # (without a mesh group the position-less group has as many rows as the particle group: still nothing to fall back on)
+    for gname, n in (("mesh", nmesh), ("part", npart), ("sink", int(rng.integers(0, 6))),
+                     ("extra", npart if no_mesh else nmesh), ("other", nmesh + 3)):
         if gname in ("part", "sink") and rng.random() < 0.25:
             continue
         if gname == "other" and rng.random() < 0.5:
             continue
         if gname == "extra" and rng.random() < 0.4:
+            continue
+        if gname == "mesh" and no_mesh:
             continue
         if n == 0 and gname != "mesh":
             continue
@@ -212,7 +219,7 @@ def judge(res, osy, ds, info, region, label, before, exact=False):
 
 
 def draw_region(osy, rng, info, ndim, kind):
-    mesh = info.get("mesh") or next(iter(info.values()))
+    mesh = info.get("mesh") or next(iter(info.values()), {"pos_cm": None})
     pos = mesh["pos_cm"] if mesh["pos_cm"] is not None and len(mesh["pos_cm"]) else np.zeros((1, ndim))
     scale = float(np.max(np.abs(pos))) or 1.0
     mode = str(rng.choice(["partial", "partial", "partial", "nothing", "everything", "tiny"]))
@@ -260,7 +267,10 @@ def run_case(case, ctx, res):
         reg2 = draw_region(osy, rng, info, ndim, rk2)
         res.count("second-extraction-same-dataset")
         judge(res, osy, ds, info, reg2, f"second call extract_{rk2}({reg2['mode']}) on the same dataset after " + label, fp(ds))
-    res.nontrivial = bool(partial) and (reg["origin_unit"] != info["mesh"]["unit"] or reg["size_unit"] != info["mesh"]["unit"])
+    res.nontrivial = bool(partial) and (reg["origin_unit"] != (info.get("mesh") or next(iter(info.values()), {"unit": None}))["unit"]
+                                            or reg["size_unit"] != (info.get("mesh") or next(iter(info.values()), {"unit": None}))["unit"])
+    if "mesh" not in info:
+        res.tag("no-mesh-group")
     res.digest_src = {"layout": layout, "reg": {k: (v.tolist() if isinstance(v, np.ndarray) else v) for k, v in reg.items()}}
     res.sample = {"groups": layout, "region": {"kind": rk, "mode": reg["mode"], "origin_unit": reg["origin_unit"],
                                               "size_unit": reg["size_unit"]}}
